@@ -748,9 +748,14 @@ class ShiftGen(object):
         shift = int(r.integers(9, 71))
         holes = r.random() < 0.5
         between = [int(x) for x in r.choice([0, 0, 1, 2, 5], len(sc.stds) + 1)]
+        # how the shared unknown is made: plainly; with its guess deleted
+        # right away (the unknown holds it); wrapped in a correlated
+        # parameter and then deleted (the correlated parameter holds it)
+        held = str(r.choice(["plain", "plain", "guess-deleted",
+                             "wrapped-and-deleted", "both-deleted"]))
         self.shape = (sc.ctype, sc.p, F, len(mine),
                       "params>=9" if nparams >= 9 else "params<9",
-                      "holes" if holes else "dense")
+                      "holes" if holes else "dense", held)
         self.info = dict(shift=shift, holes=holes, parameters=nparams,
                          standards=len(sc.stds))
         for side in ("a", "b"):
@@ -774,6 +779,19 @@ class ShiftGen(object):
             s.op("vnacal_new_set_et_tolerance $%s %s" % (vn, hx(1e-11)))
             s.op("vnacal_new_set_iteration_limit $%s 100" % vn)
             uid = [0 if side == "a" else 5000]
+            s.op("hg%s=vnacal_make_scalar_parameter $%s %s" % (
+                side, vc, cx(guess.values[0])))
+            s.op("hu%s=vnacal_make_unknown_parameter $%s $hg%s" % (
+                side, vc, side))
+            unk.var = "$hu" + side
+            if held in ("guess-deleted", "both-deleted"):
+                s.op("vnacal_delete_parameter $%s $hg%s" % (vc, side))
+            if held in ("wrapped-and-deleted", "both-deleted"):
+                s.rvec("hs", [0.05])
+                s.op("hc%s=vnacal_make_correlated_parameter $%s $hu%s NULL 1 "
+                     "@hs" % (side, vc, side))
+                s.op("vnacal_delete_parameter $%s $hu%s" % (vc, side))
+                unk.var = "$hc" + side
             adds = []
             for i, st in enumerate(sc.stds):
                 if side == "b":
